@@ -186,8 +186,28 @@ func runBug(env *execenv.Env, opts bugOptions, args []string) error {
 	}
 }
 
+// isQuoted tells if arg has quotes and every quotation in it is closed, by the rules of the
+// query language: such an argument was protected from the shell and is a piece of query already.
+func isQuoted(arg string) bool {
+	seen := false
+	open := rune(-1)
+	for _, r := range arg {
+		switch {
+		case open < 0 && (r == '"' || r == '\''):
+			open = r
+			seen = true
+		case r == open:
+			open = -1
+		}
+	}
+	return seen && open < 0
+}
+
 func repairQuery(args []string) string {
 	for i, arg := range args {
+		if isQuoted(arg) {
+			continue
+		}
 		split := strings.Split(arg, ":")
 		for j, s := range split {
 			if strings.Contains(s, " ") {
